@@ -133,6 +133,16 @@ impl Registry {
                     write!(output, "{}", value)?;
                 }
             }
+            ConstValue::List(items) => {
+                output.push('[');
+                for (idx, item) in items.iter().enumerate() {
+                    if idx > 0 {
+                        output.push_str(", ");
+                    }
+                    self.stringify_input_value(output, meta_input_value, item)?;
+                }
+                output.push(']');
+            }
             _ => write!(output, "{}", value)?,
         }
 
@@ -202,7 +212,7 @@ impl Registry {
                         write!(output, "on {} ", name.node.on.node)?;
                         self.types.get(name.node.on.node.as_str())
                     } else {
-                        None
+                        parent_type
                     };
                     self.stringify_selection_set(
                         output,
